@@ -64,8 +64,131 @@ def pathOk (p : String) : Bool :=
   | [m, c, q] => (m = 'e' ∨ m = 'i') ∧ (c = 'k' ∨ c = 'b') ∧ (q = 'b' ∨ q = 'a')
   | _ => false
 
+
+/-! ### proofContextMap ops -/
+
+/-- symbolic signature for the map ops: key `k` signed decision bytes `sb` hashed by module `us` -/
+inductive MSig where
+  | good (k : Nat) (sb : Bytes) (us : Nat)
+  | bad
+
+def addrU (u k : Nat) : Bytes := UInt8.ofNat (u + 1) :: b2 k
+
+def mrec (u : Nat) (db : Bytes) : MSig → Option Bytes
+  | .good k sb us => if sb = db ∧ us = u then some (addrU u k) else some (9 :: b2 k)
+  | .bad => none
+
+def parseUid (s : String) : Option Nat := if s = "e" then some 0 else if s = "i" then some 1 else none
+
+def splitSemi (s : String) : List String := if s = "_" then [] else s.splitOn ";"
+
+def parseEntry (s : String) : Option (Int × Ctx) :=
+  match s.splitOn ":" with
+  | [n, u, vs] =>
+    match n.toInt?, parseUid u, mapAll (fun t => if t = "n" then some none else (t.toNat?).map some) (splitList vs) with
+    | some ntid, some uid, some ks =>
+      some (ntid, { uid := uid, vals := ks.map (fun k => match k with | none => [] | some k => addrU uid k) })
+    | _, _, _ => none
+  | _ => none
+
+def lookup (es : List (Int × Ctx)) (n : Int) : Option Ctx :=
+  match es.find? (fun e => e.1 == n) with
+  | some e => some e.2
+  | none => none
+
+def hexOpt (s : String) : Option (Option Bytes) :=
+  if s = "n" then some none else (Hex.decodeWire s).map some
+
+def parseDigest (s : String) : Option (Int × Option Bytes) :=
+  match s.splitOn ":" with
+  | [n, h] => match n.toInt?, hexOpt h with
+    | some ntid, some hh => some (ntid, hh)
+    | _, _ => none
+  | _ => none
+
+/-- `s<k>d<j>` / `s<k>d<j>+` -/
+def parseMSlot (es : List (Int × Ctx)) (ds : List (Int × Option Bytes)) (src : Option Bytes)
+    (height round : Int) (s : String) : Option (Option MSig) :=
+  if s = "-" then some none
+  else if s = "xv" ∨ s = "xr" ∨ s = "xs" then some (some .bad)
+  else match s.toList with
+    | 's' :: r =>
+      let plus := r.getLast? = some '+'
+      let body := String.ofList (if plus then r.dropLast else r)
+      match body.splitOn "d" with
+      | [k, j] => match k.toNat?, j.toNat? with
+        | some k, some j =>
+          match ds[j]? with
+          | some (ntid, h) =>
+            let us := match lookup es ntid with | some c => c.uid | none => 0
+            let d : Decision := { src := src, ntid := ntid, height := if plus then height + 1 else height,
+                                  round := round, ntsHash := h }
+            some (some (.good k d.bytes us))
+          | none => none
+        | _, _ => none
+      | _ => none
+    | _ => none
+
+/-- a proof on the wire: `X` undecodable, `E` empty vector, else comma list of slots; the model's
+    `decode` is the identity on an index into this table. -/
+def parseMProof (es : List (Int × Ctx)) (ds : List (Int × Option Bytes)) (src : Option Bytes)
+    (height round : Int) (s : String) : Option (Option (List (Option MSig))) :=
+  if s = "X" then some none
+  else if s = "E" then some (some [])
+  else (mapAll (parseMSlot es ds src height round) (s.splitOn ",")).map some
+
+def inI64 (v : Int) : Bool := -(2:Int)^63 ≤ v ∧ v < (2:Int)^63
+def inI32 (v : Int) : Bool := -(2:Int)^31 ≤ v ∧ v < (2:Int)^31
+
+def mapErrStr : MapErr → String
+  | .invalidLen => "err-len"
+  | .newProof i => s!"err-newproof {i}"
+  | .verify i e => s!"err-verify {i} {errStr e}"
+
+def distinctKeys (es : List (Int × Ctx)) : Bool :=
+  (es.map (·.1)).eraseDups.length == es.length
+
+def stepMap (toks : List String) : Option String :=
+  match toks with
+  | ["mv", pcm, src, height, round, digests, proofs] =>
+    match mapAll parseEntry (splitSemi pcm), hexOpt src, height.toInt?, round.toInt?,
+        mapAll parseDigest (splitSemi digests) with
+    | some es, some sr, some hg, some rd, some ds =>
+      if ¬ inI64 hg ∨ ¬ inI32 rd ∨ ¬ distinctKeys es ∨ ds.any (fun d => ¬ inI64 d.1) then some "bad-op" else
+      match mapAll (parseMProof es ds sr hg rd) (splitSemi proofs) with
+      | some ps =>
+        -- proofs are passed to the model as one-byte indices into `ps`
+        if ps.length ≥ 250 then some "bad-op" else
+        let table : Bytes → Option (List (Option MSig)) := fun b =>
+          match b with
+          | [i] => (ps[i.toNat]?).getD none
+          | _ => none
+        let pbytes : List Bytes := (List.range ps.length).map (fun i => [UInt8.ofNat i])
+        some (match verifyMap (lookup es) table mrec sr hg rd ds pbytes with
+          | none => "ok"
+          | some e => mapErrStr e)
+      | none => some "bad-op"
+    | _, _, _, _, _ => some "bad-op"
+  | ["dec", src, ntid, height, round, h] =>
+    match hexOpt src, ntid.toInt?, height.toInt?, round.toInt?, hexOpt h with
+    | some sr, some nt, some hg, some rd, some hh =>
+      if ¬ inI64 nt ∨ ¬ inI64 hg ∨ ¬ inI32 rd then some "bad-op"
+      else some (Hex.encodeWire (Decision.bytes { src := sr, ntid := nt, height := hg, round := rd, ntsHash := hh }))
+    | _, _, _, _, _ => some "bad-op"
+  | ["pcfor", pcm, ntid] =>
+    match mapAll parseEntry (splitSemi pcm), ntid.toInt? with
+    | some es, some nt =>
+      if ¬ distinctKeys es then some "bad-op" else
+      some (match lookup es nt with
+        | some c => s!"ok {c.uid}:{c.vals.length}"
+        | none => "err-notfound")
+    | _, _ => some "bad-op"
+  | _ => none
+
 def step (s : Unit) (toks : List String) : Unit × String :=
-  let out := match toks with
+  let out := match stepMap toks with
+  | some o => o
+  | none => match toks with
   | ["reset"] => "ok"
   | ["verify", path, dh, vals, sigs] =>
     match dh.toNat?, mapAll parseVal (splitList vals), mapAll parseSlot (splitList sigs) with
